@@ -25,6 +25,7 @@ MISSING = {'missing': True}
 NEG_DEL_OK = [True]      # fixes/C09-F112.patch: `del l[-1]` reports the position (before: the key path [-1])
 _CLS = {}
 LOG = []
+BOUND = []      # ids of the objects whose overridden _on_bound ran
 OBJ_IDS = {}
 
 
@@ -45,6 +46,10 @@ def classes():
       def _on_change(self, field_updates):
         LOG.append((OBJ_IDS.get(id(self)), field_updates))
         return super()._on_change(field_updates)
+
+      def _on_bound(self):
+        BOUND.append(OBJ_IDS.get(id(self)))
+        super()._on_bound()
 
     class C09Req(pg.Object):          # a required field (partial values), for the facts stream
       allow_symbolic_assignment = True
@@ -68,7 +73,26 @@ def classes():
       o: pg.typing.Object(C09Inner).set_default(C09Inner())
       x: pg.typing.Any(default=None)
 
-    _CLS.update(sub=C09Sub, plain=C09Plain, mid=C09Mid, req=C09Req, pure=C09Pure, inner=C09Inner)
+    class C09InnerSub(C09Inner):      # typed objects that override the handlers
+      def _on_change(self, field_updates):
+        LOG.append((OBJ_IDS.get(id(self)), field_updates))
+        return super()._on_change(field_updates)
+
+      def _on_bound(self):
+        BOUND.append(OBJ_IDS.get(id(self)))
+        super()._on_bound()
+
+    class C09DefSub(C09Def):
+      def _on_change(self, field_updates):
+        LOG.append((OBJ_IDS.get(id(self)), field_updates))
+        return super()._on_change(field_updates)
+
+      def _on_bound(self):
+        BOUND.append(OBJ_IDS.get(id(self)))
+        super()._on_bound()
+
+    _CLS.update(sub=C09Sub, plain=C09Plain, mid=C09Mid, req=C09Req, pure=C09Pure, inner=C09Inner,
+                innersub=C09InnerSub, defsub=C09DefSub)
     _CLS['def'] = C09Def
   return _CLS
 
@@ -276,7 +300,8 @@ def build(t):
   elif t['k'] == 'dict':
     v = pg.Dict({k: build(c) for k, c in t['items']}, onchange_callback=cb)
   elif t['k'] in ('def', 'inner'):
-    v = cls[t['k']](**{k: build(c) for k, c in t['items']})
+    v = cls[t['k'] + ('sub' if t.get('sub') else '')](**{k: build(c) for k, c in t['items']})
+    OBJ_IDS[id(v)] = nid
   elif t['k'] == 'req':
     v = cls['req'].partial(**{k: build(c) for k, c in t['items'] if not (isinstance(c, dict) and c.get('missing'))})
   else:
@@ -388,6 +413,8 @@ def annotate(t):
   out['items'] = [[k, annotate(c)] for k, c in t['items']]
   if t['k'] in CLASS_SPECS:
     c, sch = CLASS_SPECS[t['k']]
+    if t.get('sub') and t['k'] in ('def', 'inner'):
+      c += 10          # the subscribing variant is a subclass: another class than the one of the default
     out.update(k='obj', c=c, sch=sch)
     if t['k'] == 'def':
       for it in out['items']:
@@ -841,6 +868,10 @@ class C09(Prop):
     g = Gen(rng)
     def tdict(items):
       return {'k': 'dict', 'id': 0, 'sub': False, 'typed': True, 'items': items}
+    ctr = [100]
+    def nid():
+      ctr[0] += 1
+      return ctr[0]
     def req_node():
       return {'k': 'req', 'id': 0, 'sub': False, 'typed': True,
               'items': [['r', MISSING if rng.chance(0.5) else rng.randint(0, 5)], ['x', g.atom()]]}
@@ -850,17 +881,19 @@ class C09(Prop):
       if depth <= 0 or rng.chance(0.4):
         x = g.atom() if rng.chance(0.7) else req_node()
       else:
-        x = def_node(depth - 1) if rng.chance(0.5) else g.tree(1, None, 0.3)
-      return {'k': 'def', 'id': 0, 'sub': False, 'typed': True, 'items': [
+        k_ = rng.below(3)
+        x = def_node(depth - 1) if k_ == 0 else (g.tree(1, None, 0.3) if k_ == 1 else g.tree(1, 'list', 0.5))
+      return {'k': 'def', 'id': nid(), 'sub': rng.chance(0.5), 'typed': True, 'items': [
           ['d', tdict([['a', tdict([['k', g.atom()], ['j', g.atom()], ['e', tdict([['u', g.atom()], ['w', g.atom()]])]])],
                        ['b', g.atom()]])],
-          ['o', {'k': 'inner', 'id': 0, 'sub': False, 'typed': True,
+          ['o', {'k': 'inner', 'id': nid(), 'sub': rng.chance(0.4), 'typed': True,
                  'items': [['k', g.atom()], ['m', g.atom() if rng.chance(0.5) else g.tree(1, 'dict', 0.3)]]}],
           ['x', x]]}
     for _ in range(n):
       g.next_id = 1
       g.no_obj = False
-      inner = def_node(rng.below(2))
+      ctr[0] = 100
+      inner = def_node(rng.below(3))
       wrap = rng.below(4)
       if wrap == 0:
         t = inner
@@ -1028,6 +1061,7 @@ class C09(Prop):
     for step in case['steps']:
       pre = canon(root)
       del LOG[:]
+      del BOUND[:]
       if 'read' in step:
         outs.append(self.impl_read(case, root, step, pre))
         continue
@@ -1045,8 +1079,10 @@ class C09(Prop):
           ok = False
           err = type(e).__name__
       events = canon_log(LOG)
+      bound = list(BOUND)
       if chosen:
-        outs.append({'ok': ok, 'err': err, 'events': events, 'reads': [], 'value': canon(root), 'pre': pre, 'stale': []})
+        outs.append({'ok': ok, 'err': err, 'events': events, 'reads': [], 'value': canon(root), 'pre': pre, 'stale': [],
+                     'bound': bound})
         continue
       got = read_all(root)
       want = recomputed(root)
@@ -1062,7 +1098,7 @@ class C09(Prop):
             stale.append([p, bad])
       with_reads = not case.get('facts_only')
       outs.append({'ok': ok, 'err': err, 'events': events, 'reads': leafmap_reads(root) if with_reads else [],
-                   'value': canon(root), 'pre': pre, 'stale': stale})
+                   'value': canon(root), 'pre': pre, 'stale': stale, 'bound': bound})
     model = {'steps': [{'ok': o['ok'], 'events': o['events'], 'reads': o['reads'], 'value': o['value']} for o in outs]}
     return {'model': model, 'steps': outs}
 
@@ -1172,6 +1208,14 @@ class C09(Prop):
       if not CLEAR_NOTIFIES[0]:
         return None
     ids = [e['recv'] for e in events]
+    bound = o.get('bound')
+    if bound is not None:
+      objs = {n['id'] for _, n in all_nodes(tree) if n['sub'] and n['k'] not in ('dict', 'list')}
+      want = sorted(i for i in ids if i in objs)
+      if sorted(bound) != want:
+        return {'signature': 'on-bound-count',
+                'what': 'objects %s received a change event, _on_bound ran for %s (once per event is expected)' % (
+                    want, sorted(bound))}
     if len(set(ids)) != len(ids):
       return {'signature': 'duplicate-event', 'what': 'a receiver got more than one event: %s' % ids}
     sub_nodes = {n['id']: p for p, n in all_nodes(tree) if n['sub']}
